@@ -754,15 +754,17 @@ def strip_value(v):
 
 def gen_invoke(src):
     c = gen_coerce(src, typed_fn=False)
-    return {"target": strip_empty_context(R.from_case(c["target"])), "value": strip_value(c["value"])}
+    # half of the cases bind the argument by name: `f(p: v)` goes through the named dispatch, which coerces on its own
+    return {"target": strip_empty_context(R.from_case(c["target"])), "value": strip_value(c["value"]), "named": src.bool(0.5)}
 
 
 def reqs_invoke(case):
     t = R.from_case(case["target"])
-    text = "(function(p: %s) p)(v)" % R.show(t)
+    arg = "p: " if case.get("named") else ""
+    text = "(function(p: %s) p)(%sv)" % (R.show(t), arg)
     return [{"op": "eval", "scope": [[["v", feel_binding(case["value"])]]], "text": text, "repeat": 1},
-            {"op": "eval", "scope": [[["v", feel_binding(case["value"])]]], "text": "(function(p: %s) p)((function(p: %s) p)(v))" % (
-                R.show(t), R.show(t))}]
+            {"op": "eval", "scope": [[["v", feel_binding(case["value"])]]], "text": "(function(p: %s) p)(%s(function(p: %s) p)(%sv))" % (
+                R.show(t), arg, R.show(t), arg)}]
 
 
 def judge_invoke(ctx, case, resp):
